@@ -16,7 +16,7 @@ def main():
     for d in sorted(glob.glob(os.path.join(ROOT, "seeded", "C*-*"))):
         metas.append(json.load(open(os.path.join(d, "meta.json"), encoding="utf-8")))
     total = len(metas)
-    per_round = [0, 0, 0, 0]
+    per_round = [0, 0, 0, 0, 0]
     first_yes = first_no = 0
     now_own = now_other = now_no = unknown = 0
     missed_now = []
@@ -43,7 +43,7 @@ def main():
             unknown += 1
     table = subprocess.run([sys.executable, os.path.join(ROOT, "tools", "seed_table.py")], capture_output=True, text=True, check=True).stdout
     text = (
-        f"Result: {total} changes kept ({' + '.join(str(n) for n in per_round)} in rounds 1-4). {first_yes} were caught by the property's check as it was "
+        f"Result: {total} changes kept ({' + '.join(str(n) for n in per_round)} in rounds 1-5). {first_yes} were caught by the property's check as it was "
         f"when the change arrived; {first_no} were missed at first (a few of them had no valid first evaluation because the check crashed, hung "
         f"or their author was still editing them - all counted as missed). After the strengthening described in section 10, {now_own} are caught by "
         f"the property's own check, {now_other} by the check of a sibling property ({', '.join(other) or '-'}: the change breaks that property too, "
